@@ -10,6 +10,9 @@ TRUST = ("TLC explores the bounded model exhaustively; the code is bound by exec
 
 FRAME_TECH = "TLA+ spec (Frame/FrameOps/GroupOps) + TLC exhaustive enumeration of frames x arguments + monitor-style trace validation of real DataFrame calls"
 CHECKS = {
+ "C17": dict(engine="LoDSM",
+   text="LoDSM.tla is a state machine over an item heap and list objects with share/deriv parent sets, must/may/must-not obsolete flags and a warned bit; one Step operator gives the post-state of every public method (reusing LoDOps/LoDJoin for contents). LoDSMMC explores it exhaustively (all interleavings of unary methods, editors, deepcopy, joins, + and extend on up to 3-4 lists) checking SharingConfined (dicts never shared outside a share-connected component, i.e. deep copies are isolated forever), non-modification and flag action properties. Seeded histories (arbitrary derivation trees) run on the real class are validated step by step by LoDSMTrace: every list's item identities, every item's contents, every _obsolete flag and the number of warning lines after every call.",
+   design="§3 C17", technique="TLA+ state machine (LoDSM) model-checked by TLC + trace validation of recorded histories (monitor reusing the spec's Step)"),
  "C15": dict(engine="LoDOps",
    text="LoDOps.tla states the Python list/dict reference semantics of 25 ListOfDicts methods (filter forms, stable None-last sort, unique, key editing, list-like operations incl. insert clamping, slicing with negative/absent bounds) with a Supported predicate for the free points; LoDOpsMC enumerates every list of <= 3 ragged items and every boundary argument and model-checks the operators against declarative restatements; single calls and seeded 3-step chains are executed on the real class (result class / AttributeDict items observed) and judged by the LoDOpsTrace monitor, each chain step against the state observed before it.",
    design="§3 C15", technique="TLA+ spec (LoDOps) + TLC exhaustive enumeration + monitor-style trace validation of real calls and chains"),
@@ -38,6 +41,7 @@ CHECKS = {
    design="§3 C11", technique="TLA+ spec (VectorOps) + TLC exhaustive enumeration + monitor-style trace validation of real calls"),
 }
 ENGINES = [
+ dict(name="LoDSM", path="spec/LoDSM.tla", serves_properties=["C17"], kind_free_text="TLA+ session machine + LoDSMMC (exhaustive) + LoDSMTrace (history validation)"),
  dict(name="LoDOps", path="spec/LoDOps.tla", serves_properties=["C15"], kind_free_text="TLA+ LoDOps reference semantics + LoDOpsMC + LoDOpsTrace monitor (TLC)"),
  dict(name="LoDJoin", path="spec/LoDJoin.tla", serves_properties=["C16"], kind_free_text="TLA+ LoDJoin predicates + LoDJoinMC + LoDJoinTrace monitor (TLC)"),
  dict(name="CombineOps", path="spec/CombineOps.tla", serves_properties=["C09"], kind_free_text="TLA+ CombineOps operators/predicates + CombineOpsMC + CombineOpsTrace monitor (TLC)"),
